@@ -1772,11 +1772,21 @@ class MMSEIASolver(IterativeIASolverBaseClass):
                     # If we are not done yet then we need to perform the
                     # bisection method to find the best mu value between
                     # min_mu_i and max_mu_i
-                    mu_i = optimize.newton(  # pylint: disable= E1101
+                    # Since sum_term is positive semidefinite we have that
+                    # ||Vi|| <= ||Hii^H Ui|| / mu, which gives a value of mu
+                    # where the cost is negative, that is, the root is
+                    # bracketed (a secant search from mu=0 can stop after
+                    # one tiny step when the channel is very weak)
+                    max_mu_i = (np.linalg.norm(Hii_herm_U, 'fro') /
+                                np.sqrt(self.P[i])) * (1.0 + 1e-9)
+                    mu_i = optimize.brentq(  # pylint: disable= E1101
                         func,
                         min_mu_i,
+                        max_mu_i,
                         args=(sum_term, Hii_herm_U, self.P[i]),
-                        maxiter=200)
+                        xtol=1e-15 * max_mu_i,
+                        rtol=4 * np.finfo(float).eps,
+                        maxiter=500)
                 except RuntimeError:  # pragma: nocover
                     # We get a RuntimeError if the maximum number of
                     # iterations has been reached.
